@@ -30,7 +30,7 @@ CHECKS = {
    text="The space of keys/revisions/bounds is finite and enumerated completely: round trip, order for all pairs, range and prefix bounds for all triples.",
    ref="4/C10", note="Trusted: bytes between the sampled alphabet bytes behave like their neighbours (the functions only copy and compare bytes)."),
  "C11": dict(cat="model_checking", tech="explicit-state search of each storage adapter against a sorted-map reference model (27 states x all batches x all iterator shapes)",
-   text="From each of the 27 states every single-operation batch (thorough: every ordered two-operation batch), Get/Del/DelCurrent (fresh and stale iterator) and every iterator shape is executed on memkv, badger, tikv-mock and each behind the metrics wrapper; result class and full contents are compared with the model after every transition.",
+   text="From each of the 27 states every single-operation batch (thorough: every ordered two-operation batch), Get/Del/DelCurrent (fresh and stale iterator) and every iterator shape (both directions, limits 0-2, bounds on, between, outside and proper prefixes of stored keys, with and without a stored key that extends another) is executed on memkv, badger, tikv-mock and each behind the metrics wrapper; result class and full contents are compared with the model after every transition.",
    ref="4/C11"),
  "C12": dict(cat="model_checking", tech="explicit-state BFS over sequential request histories, each executed on four engines; pairwise transcript comparison (differential oracle)",
    text="Every history up to the stated depth over a 15-operation alphabet is executed on memkv, badger, tikv-mock and metrics(badger); success flags, relative revisions, failure-branch values, reads at every revision and watch events must agree.",
@@ -51,7 +51,7 @@ CHECKS = {
    text="Every interleaving of the get/create/update steps of 2-3 candidates over one store, from an absent and from a held record, on memkv, badger and tikv-mock; at most one create takes effect and every effective update was conditioned on exactly the previously stored bytes.",
    ref="4/C14"),
  "C15": dict(cat="fault_enumeration", tech="exhaustive enumeration of old-leader histories with a stop (crash) after every prefix, followed by a take-over through the real lock and the production OnStartedLeading code; storage scan oracle",
-   text="Every old-leader history up to depth 3-4 over a 10-operation alphabet (incl. 1/10/100 failed writes and lock renewals) on memkv, badger and tikv-mock with a fresh database each; the new leader's first revisions must exceed every stored revision, guarded writes must work and List must be complete.",
+   text="Every old-leader history up to depth 3-4 over a 10-operation alphabet (incl. 1/10/100 failed writes and lock renewals) on memkv, badger and tikv-mock with a fresh database each, the new leader being either a node started afterwards or a standby that polled the lock during the old term; the new leader's first revisions must exceed every stored revision, guarded writes must work and List must be complete.",
    ref="4/C15"),
  "C16": dict(cat="model_checking", tech="explicit-state BFS over Kubernetes-shaped transaction histories through the real etcd RPC server against an etcd reference model, plus exhaustive enumeration of a transaction grammar (~21 000 shapes x 3 store states)",
    text="Every history up to the stated depth of the four Kubernetes shapes on 3 prefix-related keys is executed through RPCServer.Txn/Range/Watch and compared field by field with etcd semantics; every shape of the grammar must either be one of the four shapes on one key or be rejected with an error and leave the store byte-identical.",
